@@ -14,9 +14,11 @@ import (
 	"time"
 
 	log "github.com/hashicorp/go-hclog"
+	metrics "github.com/hashicorp/go-metrics/compat"
 	"github.com/hashicorp/go-uuid"
 	hraft "github.com/hashicorp/raft"
 	kit "github.com/openbao/openbao/sdk/v2/helper/verifkit"
+	"github.com/openbao/openbao/sdk/v2/physical"
 	"google.golang.org/protobuf/proto"
 )
 
@@ -484,33 +486,37 @@ func (g *c08RaftCtl) classifyStale(run *c08Run, tr *c08Truth, a *c08Anomaly) (st
 	return other, detail
 }
 
-func TestVerif_C08_Raft(t *testing.T) {
-	if oc := kit.OnlyCase(); oc != "" && !strings.HasPrefix(oc, "raft/") {
-		r := kit.NewResult(t, "c08-raft", kit.Seed(8), c08Rule)
+func c08SkipForReplay(t *testing.T, name, prefix string) bool {
+	if oc := kit.OnlyCase(); oc != "" && !strings.HasPrefix(oc, prefix) {
+		r := kit.NewResult(t, name, kit.Seed(8), c08Rule)
 		r.Write(t)
-		return
+		return true
 	}
+	return false
+}
+
+func c08RaftNode(t *testing.T) (*RaftBackend, *c08RaftCtl) {
 	b := c08NewRaft(t)
 	ctl := &c08RaftCtl{b: b}
 	ctl.cond = sync.NewCond(&ctl.mu)
 	b.SetFSMApplyCallback(ctl.apply) // once: it takes the FSM write lock, which must never happen while a transaction is open
-	defer func() {
+	t.Cleanup(func() {
 		ctl.Open()
 		_ = b.TeardownCluster(nil)
 		_ = b.Close()
-	}()
+	})
+	return b, ctl
+}
+
+// c08RaftOpen empties the store (plain deletes through raft) and hands out the backend built by mk.
+func c08RaftOpen(b *RaftBackend, ctl *c08RaftCtl, mk func() physical.Backend) func(t testing.TB) (c08Backend, func()) {
 	ctx := context.Background()
-	be, err := c08NewPhysBackend(b)
-	if err != nil {
-		t.Fatal(err)
-	}
-	st := &c08Stack{Name: "raft", MaxPlain: 3, Gate: ctl, Truth: ctl.truth, ClassifyStale: ctl.classifyStale}
-	st.Open = func(t testing.TB) (c08Backend, func()) {
+	return func(t testing.TB) (c08Backend, func()) {
 		ctl.Open()
 		if err := ctl.quiesce(); err != nil {
 			t.Fatal(err)
 		}
-		left, err := c08ScanStore(ctx, be)
+		left, err := c08ScanStore(ctx, c08PhysStore{b})
 		if err != nil {
 			t.Fatal(err)
 		}
@@ -519,9 +525,22 @@ func TestVerif_C08_Raft(t *testing.T) {
 				t.Fatal(err)
 			}
 		}
+		be, err := c08NewPhysBackend(mk())
+		if err != nil {
+			t.Fatal(err)
+		}
 		return be, func() {}
 	}
-	c08RunStack(t, "c08-raft", st, kit.N(600, 40000), kit.N(100, 8000), func(r *kit.Result, sched, free int) {
+}
+
+func TestVerif_C08_Raft(t *testing.T) {
+	if c08SkipForReplay(t, "c08-raft", "raft/") {
+		return
+	}
+	b, ctl := c08RaftNode(t)
+	st := &c08Stack{Name: "raft", MaxPlain: 3, Gate: ctl, Reset: ctl.Reset, Jitter: ctl.Jitter, Truth: ctl.truth, ClassifyStale: ctl.classifyStale}
+	st.Open = c08RaftOpen(b, ctl, func() physical.Backend { return b })
+	c08RunStack(t, "c08-raft", st, kit.N(400, 24000), kit.N(60, 4800), func(r *kit.Result, sched, free int) {
 		_, shards := kit.Shard()
 		if sched > 0 {
 			n := int64(sched / shards)
@@ -529,4 +548,30 @@ func TestVerif_C08_Raft(t *testing.T) {
 			r.Require("txn_begun_behind_lagging_state_machine", n/4)
 		}
 	})
+}
+
+// The arrangement of a real server: physical cache (switched on) over raft. A fresh cache per case. No
+// gate here: with the cache in front a parked write holds the cache's per-key lock and would park plain
+// reads too, which the step scheduler cannot tell from a hang; lag comes from the free-running cases
+// (seeded apply delays).
+func TestVerif_C08_CacheRaft(t *testing.T) {
+	if c08SkipForReplay(t, "c08-cache-raft", "cache-raft/") {
+		return
+	}
+	b, ctl := c08RaftNode(t)
+	st := &c08Stack{Name: "cache-raft", MaxPlain: 3, HasCache: true, Reset: ctl.Reset, Jitter: ctl.Jitter, Truth: ctl.truth, ClassifyStale: ctl.classifyStale}
+	st.Open = c08RaftOpen(b, ctl, func() physical.Backend {
+		c := physical.NewCache(b, 0, log.NewNullLogger(), &metrics.BlackholeSink{})
+		c.SetEnabled(true)
+		return c
+	})
+	c08RunStack(t, "c08-cache-raft", st, kit.N(150, 8000), kit.N(40, 3200), nil)
+}
+
+// replay stubs for the C08 tests of the other packages (see c08ReplayStub)
+func TestVerif_C08_Inmem(t *testing.T)            { c08ReplayStub(t, "c08-inmem") }
+func TestVerif_C08_CacheInmem(t *testing.T)       { c08ReplayStub(t, "c08-cache-inmem") }
+func TestVerif_C08_ViewBarrierInmem(t *testing.T) { c08ReplayStub(t, "c08-view-barrier-inmem") }
+func TestVerif_C08_ViewBarrierCacheInmem(t *testing.T) {
+	c08ReplayStub(t, "c08-view-barrier-cache-inmem")
 }
